@@ -1,31 +1,34 @@
 /-
-  SfProofs.Peak — helper lemmas for C18: the running (value, position) invariant of the PEAK bookkeeping,
-  the per-channel scan of `Sf.peakChunkUpdate`, and the scan loops of the CALC commands.
+  SfProofs.Peak — helper lemmas for C18: the running (value, bits, position) invariant of the PEAK bookkeeping,
+  the per-channel scan of `Sf.peakChunkUpdate`, the staging-buffer chunking of `Sf.peakUpdate`, sequences of calls.
 -/
 import SfProofs.FloatExact
 import SfModel.Peak
 namespace Sf.Peak
 open Sf Sf.Float
 
-/-! ## abstract invariant: (running maximum, frame of its first occurrence) -/
+/-! ## abstract invariant: (running maximum, its bit pattern, frame of its first occurrence) -/
 
-/-- after `N` frames of a channel whose magnitudes are `K 0, K 1, …` the state is `(v, pos)` -/
-structure PInv (K : Nat → ℚ) (N : Nat) (v : ℚ) (pos : Int) : Prop where
+/-- after `N` frames of a channel whose magnitudes are `K 0, K 1, …` (stored as the patterns `W 0, W 1, …`) the state is
+    `(v, bits, pos)`: untouched (all samples so far are zero), or the first maximum -/
+structure PInv (K : Nat → ℚ) (W : Nat → Nat) (N : Nat) (v : ℚ) (bits : Nat) (pos : Int) : Prop where
   nn : 0 ≤ v
   ub : ∀ j < N, K j ≤ v
-  at_ : (v = 0 ∧ pos = 0) ∨ ∃ q < N, pos = (q : Int) ∧ v = K q ∧ ∀ j < q, K j < K q
+  at_ : (v = 0 ∧ pos = 0 ∧ bits = 0) ∨ ∃ q < N, pos = (q : Int) ∧ v = K q ∧ 0 < v ∧ bits = W q ∧ ∀ j < q, K j < K q
 
-theorem PInv.init (K : Nat → ℚ) : PInv K 0 0 0 := ⟨le_refl _, fun _ h => absurd h (Nat.not_lt_zero _), Or.inl ⟨rfl, rfl⟩⟩
+theorem PInv.init (K : Nat → ℚ) (W : Nat → Nat) : PInv K W 0 0 0 0 :=
+  ⟨le_refl _, fun _ h => absurd h (Nat.not_lt_zero _), Or.inl ⟨rfl, rfl, rfl⟩⟩
 
 /-- one update with a block of `n` frames whose own first maximum is at `q'`:
     `if (fmaxval > peaks.value) { value = fmaxval ; position = N + q' }` -/
-theorem PInv.step (K : Nat → ℚ) (N n q' : Nat)
+theorem PInv.step (K : Nat → ℚ) (W : Nat → Nat) (N n q' : Nat)
     (hmax : ∀ j < n, K (N + j) ≤ K (N + q')) (hfirst : ∀ j < q', K (N + j) < K (N + q')) (hq' : q' < n)
-    (v : ℚ) (pos : Int) (inv : PInv K N v pos) :
-    PInv K (N + n) (if v < K (N + q') then K (N + q') else v) (if v < K (N + q') then ((N + q' : Nat) : Int) else pos) := by
+    (v : ℚ) (bits : Nat) (pos : Int) (inv : PInv K W N v bits pos) :
+    PInv K W (N + n) (if v < K (N + q') then K (N + q') else v) (if v < K (N + q') then W (N + q') else bits)
+      (if v < K (N + q') then ((N + q' : Nat) : Int) else pos) := by
   by_cases hlt : v < K (N + q')
   · simp only [hlt, if_true]
-    refine ⟨le_trans inv.nn (le_of_lt hlt), ?_, Or.inr ⟨N + q', by omega, rfl, rfl, ?_⟩⟩
+    refine ⟨le_trans inv.nn (le_of_lt hlt), ?_, Or.inr ⟨N + q', by omega, rfl, rfl, lt_of_le_of_lt inv.nn hlt, rfl, ?_⟩⟩
     · intro j hj
       by_cases hjN : j < N
       · exact le_trans (inv.ub j hjN) (le_of_lt hlt)
@@ -45,42 +48,57 @@ theorem PInv.step (K : Nat → ℚ) (N n q' : Nat)
       · have := hmax (j - N) (by omega)
         rw [show N + (j - N) = j by omega] at this
         exact le_trans this hle
-    · rcases inv.at_ with h0 | ⟨q, hq, hp, hv, hf⟩
+    · rcases inv.at_ with h0 | ⟨q, hq, hp, hv, hpos, hb, hf⟩
       · exact Or.inl h0
-      · exact Or.inr ⟨q, by omega, hp, hv, hf⟩
-
-/-- an update with an empty block changes nothing -/
-theorem PInv.step_empty (K : Nat → ℚ) (N : Nat) (v : ℚ) (pos : Int) (inv : PInv K N v pos) : PInv K (N + 0) v pos := inv
+      · exact Or.inr ⟨q, by omega, hp, hv, hpos, hb, hf⟩
 
 /-- what the invariant says once at least one frame was written: the value is the maximum and the position is the
     first frame attaining it -/
-theorem PInv.final (K : Nat → ℚ) (hK : ∀ j, 0 ≤ K j) (N : Nat) (hN : 0 < N) (v : ℚ) (pos : Int) (inv : PInv K N v pos) :
-    ∃ q < N, pos = (q : Int) ∧ v = K q ∧ (∀ j < N, K j ≤ K q) ∧ ∀ j < q, K j < K q := by
-  rcases inv.at_ with ⟨h0, hp⟩ | ⟨q, hq, hp, hv, hf⟩
-  · refine ⟨0, hN, by simpa using hp, ?_, ?_, fun j hj => absurd hj (Nat.not_lt_zero _)⟩
+theorem PInv.final (K : Nat → ℚ) (W : Nat → Nat) (hK : ∀ j, 0 ≤ K j) (N : Nat) (hN : 0 < N) (v : ℚ) (bits : Nat) (pos : Int)
+    (inv : PInv K W N v bits pos) :
+    ∃ q < N, pos = (q : Int) ∧ v = K q ∧ (∀ j < N, K j ≤ K q) ∧ (∀ j < q, K j < K q) ∧ (bits = W q ∨ (bits = 0 ∧ v = 0)) := by
+  rcases inv.at_ with ⟨h0, hp, hb⟩ | ⟨q, hq, hp, hv, _, hb, hf⟩
+  · refine ⟨0, hN, by simpa using hp, ?_, ?_, fun j hj => absurd hj (Nat.not_lt_zero _), Or.inr ⟨hb, h0⟩⟩
     · have := inv.ub 0 hN; have := hK 0; linarith
     · intro j hj
       have h1 := inv.ub j hj
       have h2 := inv.ub 0 hN
       have := hK 0; have := hK j
       linarith
-  · exact ⟨q, hq, hp, hv, fun j hj => by rw [← hv]; exact inv.ub j hj, hf⟩
+  · exact ⟨q, hq, hp, hv, fun j hj => by rw [← hv]; exact inv.ub j hj, hf, Or.inl hb⟩
+
+/-- the state is a function of the samples: two states satisfying the invariant for the same channel are equal -/
+theorem PInv.unique (K : Nat → ℚ) (W : Nat → Nat) (N : Nat) (v v' : ℚ) (b b' : Nat) (p p' : Int)
+    (i1 : PInv K W N v b p) (i2 : PInv K W N v' b' p') : b = b' ∧ p = p' := by
+  rcases i1.at_ with ⟨h0, hp, hb⟩ | ⟨q, hq, hp, hv, hpos, hb, hf⟩ <;>
+    rcases i2.at_ with ⟨h0', hp', hb'⟩ | ⟨q', hq', hp', hv', hpos', hb', hf'⟩
+  · exact ⟨hb.trans hb'.symm, hp.trans hp'.symm⟩
+  · exfalso; have := i1.ub q' hq'; rw [h0, ← hv'] at this; linarith
+  · exfalso; have := i2.ub q hq; rw [h0', ← hv] at this; linarith
+  · have hqq : q = q' := by
+      rcases Nat.lt_trichotomy q q' with h | h | h
+      · have h1 := hf' q h; have h2 := i1.ub q' hq'; rw [hv] at h2; linarith
+      · exact h
+      · have h1 := hf q' h; have h2 := i2.ub q hq; rw [hv'] at h2; linarith
+    subst hqq
+    exact ⟨hb.trans hb'.symm, hp.trans hp'.symm⟩
 
 /-! ## the per-channel scan of `peakChunkUpdate`, named -/
 
-def narrowB (f : Fmt) (v : Nat) : Nat := if f == Float.f32 then v else Float.f64to32 v
+/-- `peaks [chan].value` is a double: a float maximum is widened (exactly) -/
+def widenB (f : Fmt) (v : Nat) : Nat := if f == Float.f32 then Float.f32to64 v else v
 
 def stepF (f : Fmt) (vals : List Nat) (acc : Nat × Nat) (k : Nat) : Nat × Nat :=
   let v := absBits f (vals.getD k 0)
-  if (Float.f32.toDy acc.1).lt (f.toDy v) then (narrowB f v, k) else acc
+  if (f.toDy acc.1).lt (f.toDy v) then (v, k) else acc
 
 /-- the inner loop for channel `c` over `n` frames: (fmaxval, position) -/
 def chanScanN (f : Fmt) (ch c : Nat) (vals : List Nat) (n : Nat) : Nat × Nat :=
-  ((List.range n).map fun j => c + j * ch).foldl (stepF f vals) (narrowB f (absBits f (vals.getD c 0)), 0)
+  ((List.range n).map fun j => c + j * ch).foldl (stepF f vals) (absBits f (vals.getD c 0), 0)
 
 def chanUpd (f : Fmt) (ch : Nat) (wcur indx : Int) (vals : List Nat) (p : Peak) (c : Nat) : Peak :=
   let r := chanScanN f ch c vals ((vals.length + ch - 1 - c) / ch)
-  let mx64 := Float.f32to64 r.1
+  let mx64 := widenB f r.1
   if (Float.f64.toDy p.value).lt (Float.f64.toDy mx64) then
     { value := mx64, position := wcur + indx + (r.2 / ch : Nat) }
   else p
@@ -88,21 +106,17 @@ def chanUpd (f : Fmt) (ch : Nat) (wcur indx : Int) (vals : List Nat) (p : Peak) 
 theorem peakChunkUpdate_eq (f : Fmt) (ch : Nat) (wcur indx : Int) (vals : List Nat) (ps : List Peak) :
     peakChunkUpdate f ch wcur indx vals ps = (List.range ch).map fun c => chanUpd f ch wcur indx vals (ps.getD c {}) c := rfl
 
-
 /-- magnitude pattern of frame `j` of channel `c` in an interleaved buffer -/
 def colB (f : Fmt) (ch c : Nat) (vals : List Nat) (j : Nat) : Nat := absBits f (vals.getD (c + j * ch) 0)
 
 /-- its exact value -/
 def colK (f : Fmt) (ch c : Nat) (vals : List Nat) (j : Nat) : ℚ := (f.toDy (colB f ch c vals j)).val
 
-/-- the running maximum survives the narrowing to `float fmaxval` unchanged (always true for FLOAT data; for DOUBLE
-    data: the magnitude is exactly representable in binary32) -/
-def RepOK (f : Fmt) (b : Nat) : Prop :=
-  (Float.f32.toDy (narrowB f b)).val = (f.toDy b).val ∧ Float.f32.isFinite (narrowB f b) = true
+/-- the pattern kept in `peaks [c].value` when that sample is the maximum -/
+def colW (f : Fmt) (ch c : Nat) (vals : List Nat) (j : Nat) : Nat := widenB f (colB f ch c vals j)
 
-theorem chanScanN_spec (f : Fmt) (ch c : Nat) (hc : c < ch) (vals : List Nat)
-    (hrep : ∀ j, RepOK f (colB f ch c vals j)) (n : Nat) :
-    ∃ q, q < max n 1 ∧ (chanScanN f ch c vals n).2 / ch = q ∧ (chanScanN f ch c vals n).1 = narrowB f (colB f ch c vals q) ∧
+theorem chanScanN_spec (f : Fmt) (ch c : Nat) (hc : c < ch) (vals : List Nat) (n : Nat) :
+    ∃ q, q < max n 1 ∧ (chanScanN f ch c vals n).2 / ch = q ∧ (chanScanN f ch c vals n).1 = colB f ch c vals q ∧
       (∀ j < max n 1, colK f ch c vals j ≤ colK f ch c vals q) ∧ (∀ j < q, colK f ch c vals j < colK f ch c vals q) := by
   induction n with
   | zero =>
@@ -120,9 +134,9 @@ theorem chanScanN_spec (f : Fmt) (ch c : Nat) (hc : c < ch) (vals : List Nat)
     unfold stepF
     have hv : absBits f (vals.getD (c + n * ch) 0) = colB f ch c vals n := rfl
     simp only [hv]
-    have hcmp : ((Float.f32.toDy (chanScanN f ch c vals n).1).lt (f.toDy (colB f ch c vals n)) = true) ↔
+    have hcmp : ((f.toDy (chanScanN f ch c vals n).1).lt (f.toDy (colB f ch c vals n)) = true) ↔
         colK f ch c vals q < colK f ch c vals n := by
-      rw [Dy.lt_iff, hmx, (hrep q).1]; rfl
+      rw [Dy.lt_iff, hmx]; rfl
     by_cases hlt : colK f ch c vals q < colK f ch c vals n
     · rw [if_pos (hcmp.mpr hlt)]
       refine ⟨n, by omega, ?_, rfl, ?_, ?_⟩
@@ -143,7 +157,6 @@ theorem chanScanN_spec (f : Fmt) (ch c : Nat) (hc : c < ch) (vals : List Nat)
       · have : j = n := by omega
         subst this; exact not_lt.mp hlt
 
-
 /-! ## one chunk, one channel: the invariant is carried -/
 
 /-- exact value of a binary64 pattern -/
@@ -154,34 +167,37 @@ theorem scan_frames (n ch c : Nat) (hc : c < ch) : (n * ch + ch - 1 - c) / ch = 
   rw [h, Nat.add_mul_div_right _ _ (by omega : 0 < ch), Nat.div_eq_of_lt (by omega)]; omega
 
 theorem chanUpd_inv (f : Fmt) (ch c : Nat) (hc : c < ch) (vals : List Nat) (n : Nat) (hlen : vals.length = n * ch) (hn : 0 < n)
-    (hrep : ∀ j, RepOK f (colB f ch c vals j)) (K : Nat → ℚ) (N : Nat) (hK : ∀ j < n, K (N + j) = colK f ch c vals j)
-    (wcur indx : Int) (hN : wcur + indx = (N : Int)) (p : Peak) (inv : PInv K N (V64 p.value) p.position) :
-    PInv K (N + n) (V64 (chanUpd f ch wcur indx vals p c).value) (chanUpd f ch wcur indx vals p c).position := by
-  obtain ⟨q, hq, hpos, hmx, hall, hfirst⟩ := chanScanN_spec f ch c hc vals hrep n
+    (hw : ∀ j, V64 (colW f ch c vals j) = colK f ch c vals j)
+    (K : Nat → ℚ) (W : Nat → Nat) (N : Nat) (hK : ∀ j < n, K (N + j) = colK f ch c vals j)
+    (hW : ∀ j < n, W (N + j) = colW f ch c vals j)
+    (wcur indx : Int) (hN : wcur + indx = (N : Int)) (p : Peak) (inv : PInv K W N (V64 p.value) p.value p.position) :
+    PInv K W (N + n) (V64 (chanUpd f ch wcur indx vals p c).value) (chanUpd f ch wcur indx vals p c).value
+      (chanUpd f ch wcur indx vals p c).position := by
+  obtain ⟨q, hq, hpos, hmx, hall, hfirst⟩ := chanScanN_spec f ch c hc vals n
   have hqn : q < n := by omega
   have hmax1 : max n 1 = n := by omega
   rw [hmax1] at hall
-  have hfin := (hrep q).2
-  have hex := f32to64_exact (narrowB f (colB f ch c vals q)) hfin
-  have hval : V64 (Float.f32to64 (chanScanN f ch c vals n).1) = K (N + q) := by
-    rw [hmx, hK q hqn]; unfold V64; rw [hex.1, (hrep q).1]; rfl
-  have hstep := PInv.step K N n q
+  have hbits : widenB f (chanScanN f ch c vals n).1 = W (N + q) := by rw [hmx, hW q hqn]; rfl
+  have hval : V64 (widenB f (chanScanN f ch c vals n).1) = K (N + q) := by
+    rw [hmx, hK q hqn]; exact hw q
+  have hstep := PInv.step K W N n q
     (fun j hj => by rw [hK j hj, hK q hqn]; exact hall j hj)
-    (fun j hj => by rw [hK j (by omega), hK q hqn]; exact hfirst j hj) hqn _ _ inv
+    (fun j hj => by rw [hK j (by omega), hK q hqn]; exact hfirst j hj) hqn _ _ _ inv
   unfold chanUpd
   rw [hlen, scan_frames n ch c hc]
   simp only []
-  have hcmp : ((Float.f64.toDy p.value).lt (Float.f64.toDy (Float.f32to64 (chanScanN f ch c vals n).1)) = true) ↔
+  have hcmp : ((Float.f64.toDy p.value).lt (Float.f64.toDy (widenB f (chanScanN f ch c vals n).1)) = true) ↔
       V64 p.value < K (N + q) := by
     rw [Dy.lt_iff, ← hval]; rfl
   by_cases hlt : V64 p.value < K (N + q)
   · rw [if_pos (hcmp.mpr hlt)]
-    rw [if_pos hlt, if_pos hlt] at hstep
-    simp only [hval, hpos]
+    rw [if_pos hlt, if_pos hlt, if_pos hlt] at hstep
+    have hval2 : V64 (W (N + q)) = K (N + q) := by rw [← hbits]; exact hval
+    simp only [hpos, hbits, hval2]
     have : wcur + indx + ((q : Nat) : Int) = ((N + q : Nat) : Int) := by push_cast; omega
     rw [this]; exact hstep
   · rw [if_neg (fun h => hlt (hcmp.mp h))]
-    rw [if_neg hlt, if_neg hlt] at hstep
+    rw [if_neg hlt, if_neg hlt, if_neg hlt] at hstep
     exact hstep
 
 /-! ## one chunk, all channels -/
@@ -189,14 +205,15 @@ theorem chanUpd_inv (f : Fmt) (ch c : Nat) (hc : c < ch) (vals : List Nat) (n : 
 theorem getD_map_range {α : Type} (g : Nat → α) (n c : Nat) (hc : c < n) (d : α) : ((List.range n).map g).getD c d = g c := by
   simp [List.getD, List.getElem?_map, List.getElem?_range hc]
 
-/-- state of all channels after `N` frames of the interleaved magnitudes `all` -/
+/-- state of all channels after `N` frames of the interleaved file-typed samples `all` -/
 def AllInv (f : Fmt) (ch : Nat) (all : List Nat) (N : Nat) (ps : List Peak) : Prop :=
-  ps.length = ch ∧ ∀ c < ch, PInv (colK f ch c all) N (V64 (ps.getD c {}).value) (ps.getD c {}).position
+  ps.length = ch ∧ ∀ c < ch, PInv (colK f ch c all) (colW f ch c all) N (V64 (ps.getD c {}).value) (ps.getD c {}).value
+    (ps.getD c {}).position
 
-theorem colK_append (f : Fmt) (ch c : Nat) (hc : c < ch) (pre vals post : List Nat) (N n : Nat) (hpre : pre.length = N * ch)
+theorem colB_append (f : Fmt) (ch c : Nat) (hc : c < ch) (pre vals post : List Nat) (N n : Nat) (hpre : pre.length = N * ch)
     (hlen : vals.length = n * ch) (j : Nat) (hj : j < n) :
-    colK f ch c (pre ++ vals ++ post) (N + j) = colK f ch c vals j := by
-  unfold colK colB
+    colB f ch c (pre ++ vals ++ post) (N + j) = colB f ch c vals j := by
+  unfold colB
   have hidx : c + (N + j) * ch = pre.length + (c + j * ch) := by rw [hpre]; ring
   have hlt : c + j * ch < vals.length := by
     rw [hlen]
@@ -207,9 +224,12 @@ theorem colK_append (f : Fmt) (ch c : Nat) (hc : c < ch) (pre vals post : List N
   simp only [List.getD_eq_getElem?_getD]
   rw [List.append_assoc, List.getElem?_append_right (by omega), Nat.add_sub_cancel_left, List.getElem?_append_left hlt]
 
+/-- widening keeps the value: true for every finite pattern -/
+def WidenOK (f : Fmt) (b : Nat) : Prop := V64 (widenB f b) = (f.toDy b).val
+
 theorem chunk_inv (f : Fmt) (ch : Nat) (pre vals post : List Nat) (N n : Nat) (hpre : pre.length = N * ch)
     (hlen : vals.length = n * ch) (hn : 0 < n)
-    (hrep : ∀ c < ch, ∀ j, RepOK f (colB f ch c vals j))
+    (hw : ∀ c < ch, ∀ j, WidenOK f (colB f ch c vals j))
     (wcur indx : Int) (hN : wcur + indx = (N : Int)) (ps : List Peak)
     (inv : AllInv f ch (pre ++ vals ++ post) N ps) :
     AllInv f ch (pre ++ vals ++ post) (N + n) (peakChunkUpdate f ch wcur indx vals ps) := by
@@ -217,75 +237,12 @@ theorem chunk_inv (f : Fmt) (ch : Nat) (pre vals post : List Nat) (N n : Nat) (h
   refine ⟨by simp, ?_⟩
   intro c hc
   rw [getD_map_range _ ch c hc]
-  exact chanUpd_inv f ch c hc vals n hlen hn (hrep c hc) _ N
-    (fun j hj => colK_append f ch c hc pre vals post N n hpre hlen j hj) wcur indx hN _ (inv.2 c hc)
+  exact chanUpd_inv f ch c hc vals n hlen hn (hw c hc) _ _ N
+    (fun j hj => by unfold colK; rw [colB_append f ch c hc pre vals post N n hpre hlen j hj])
+    (fun j hj => by unfold colW; rw [colB_append f ch c hc pre vals post N n hpre hlen j hj])
+    wcur indx hN _ (inv.2 c hc)
 
-
-/-! ## one call -/
-
-def fileFmt : Enc → Fmt | .dbl _ => Float.f64 | _ => Float.f32
-def fileTy : Enc → Ty | .dbl _ => .f64 | _ => .f32
-
-/-- the caller's value as the file-typed bit pattern the PEAK bookkeeping looks at (`conv` inside `Sf.peakUpdate`) -/
-def convVal (enc : Enc) (conv : Conv) (ty : Ty) (v : Int) : Nat :=
-  match enc with
-  | .flt _ => (match ty with | .s16 | .s32 => floatOfInt Float.f32 conv.scaleIF ty v | .f32 => v.toNat | .f64 => Float.f64to32 v.toNat)
-  | _ => (match ty with | .s16 | .s32 => floatOfInt Float.f64 conv.scaleIF ty v | .f32 => Float.f32to64 v.toNat | .f64 => v.toNat)
-
-/-- items per staging-buffer chunk: 8192 / sizeof (file sample) -/
-def stagingItems (enc : Enc) : Nat := 8192 / ((fileFmt enc).width / 8)
-
-/-- the call is handed to the PEAK update in one piece: caller type = file type (host_write_f / host_write_d),
-    or the converted samples fit into one staging buffer -/
-def SingleChunk (enc : Enc) (ty : Ty) (len : Nat) : Prop := ty = fileTy enc ∨ len ≤ stagingItems enc
-
-theorem chunksOf_single {α : Type} (n : Nat) (l : List α) (hl : 0 < l.length) (h : n = 0 ∨ l.length ≤ n) : chunksOf n l = [l] := by
-  unfold chunksOf
-  rcases h with h | h
-  · simp [h]
-  · have hn : n ≠ 0 := by omega
-    have h1 : (l.length + n - 1) / n = 1 := by
-      apply Nat.div_eq_of_lt_le <;> omega
-    simp [hn, h1, List.range_succ, List.take_of_length_le h]
-
-theorem upd_single (enc : Enc) (hfl : enc.isFloatData = true) (conv : Conv) (ch : Nat) (wpos : Int) (ty : Ty) (vals : List Int)
-    (ps : List Peak) (hne : 0 < vals.length) (hs : SingleChunk enc ty vals.length) :
-    upd (some ps) enc conv ch wpos ty vals =
-      some (peakChunkUpdate (fileFmt enc) ch wpos ((0 / ch : Nat) : Int) (vals.map (convVal enc conv ty)) ps) := by
-  have hlen : 0 < (vals.map (convVal enc conv ty)).length := by simpa using hne
-  cases enc with
-  | pcm p => simp [Enc.isFloatData] at hfl
-  | ulaw => simp [Enc.isFloatData] at hfl
-  | alaw => simp [Enc.isFloatData] at hfl
-  | flt b =>
-    have hc : chunksOf (if (ty == Ty.f32) = true then 0 else 8192 / (Float.f32.width / 8)) (vals.map (convVal (.flt b) conv ty)) =
-        [vals.map (convVal (.flt b) conv ty)] := by
-      apply chunksOf_single _ _ hlen
-      rcases hs with h | h
-      · left; simp [h, fileTy]
-      · by_cases ht : ty = .f32
-        · left; simp [ht]
-        · right; simp only [beq_iff_eq, ht, if_false]; simpa [stagingItems, fileFmt] using h
-    simp only [upd, peakUpdate, fileFmt]
-    change some ((chunksOf _ (vals.map (convVal (.flt b) conv ty))).foldl _ (ps, 0)).1 = _
-    rw [hc]
-    rfl
-  | dbl b =>
-    have hc : chunksOf (if (ty == Ty.f64) = true then 0 else 8192 / (Float.f64.width / 8)) (vals.map (convVal (.dbl b) conv ty)) =
-        [vals.map (convVal (.dbl b) conv ty)] := by
-      apply chunksOf_single _ _ hlen
-      rcases hs with h | h
-      · left; simp [h, fileTy]
-      · by_cases ht : ty = .f64
-        · left; simp [ht]
-        · right; simp only [beq_iff_eq, ht, if_false]; simpa [stagingItems, fileFmt] using h
-    simp only [upd, peakUpdate, fileFmt]
-    change some ((chunksOf _ (vals.map (convVal (.dbl b) conv ty))).foldl _ (ps, 0)).1 = _
-    rw [hc]
-    rfl
-
-
-/-! ## magnitudes are non-negative; zero is harmless -/
+/-! ## magnitudes are non-negative and as finite as the sample; zero is harmless -/
 
 theorem absBits_sign (f : Fmt) (b : Nat) : f.sign (absBits f b) = false := by
   unfold Fmt.sign absBits
@@ -303,31 +260,180 @@ theorem absBits_val_nonneg (f : Fmt) (b : Nat) : 0 ≤ (f.toDy (absBits f b)).va
 theorem colK_nonneg (f : Fmt) (ch c : Nat) (vals : List Nat) (j : Nat) : 0 ≤ colK f ch c vals j :=
   absBits_val_nonneg f _
 
+theorem absBits_expo (f : Fmt) (b : Nat) : f.expo (absBits f b) = f.expo b := by
+  unfold Fmt.expo absBits
+  rw [Nat.pow_add, Nat.mul_comm (2 ^ f.ebits), Nat.mod_mul_right_div_self, Nat.mod_mod]
+
+theorem absBits_finite (f : Fmt) (b : Nat) : f.isFinite (absBits f b) = f.isFinite b := by
+  unfold Fmt.isFinite; rw [absBits_expo]
+
 theorem V64_zero : V64 0 = 0 := by
   unfold V64; rw [Dy.val_eq]; simp [Fmt.toDy, Fmt.expo, Fmt.frac, Dy.mag]
 
-theorem RepOK_zero32 : RepOK Float.f32 0 := by
-  refine ⟨rfl, by decide⟩
-
-theorem RepOK_zero64 : RepOK Float.f64 0 := by
-  have h : narrowB Float.f64 0 = 0 := by decide
-  refine ⟨?_, by rw [h]; decide⟩
-  rw [h, Dy.val_eq, Dy.val_eq]
-  simp [Fmt.toDy, Fmt.expo, Fmt.frac, Dy.mag]
-
 theorem absBits_zero (f : Fmt) : absBits f 0 = 0 := by simp [absBits]
 
-theorem RepOK_col (f : Fmt) (hf : f = Float.f32 ∨ f = Float.f64) (ch c : Nat) (vals : List Nat)
-    (h : ∀ x ∈ vals, RepOK f (absBits f x)) (j : Nat) : RepOK f (colB f ch c vals j) := by
+theorem widenOK_of_finite (f : Fmt) (hf : f = Float.f32 ∨ f = Float.f64) (b : Nat) (hfin : f.isFinite b = true) : WidenOK f b := by
+  unfold WidenOK widenB V64
+  rcases hf with rfl | rfl
+  · simp only [beq_self_eq_true, if_true]
+    exact (f32to64_exact b hfin).1
+  · have : (Float.f64 == Float.f32) = false := by decide
+    simp only [this, Bool.false_eq_true, if_false]
+
+theorem widenOK_col (f : Fmt) (hf : f = Float.f32 ∨ f = Float.f64) (ch c : Nat) (vals : List Nat)
+    (h : ∀ x ∈ vals, f.isFinite x = true) (j : Nat) : WidenOK f (colB f ch c vals j) := by
+  apply widenOK_of_finite f hf
   unfold colB
+  rw [absBits_finite]
   by_cases hi : c + j * ch < vals.length
   · rw [List.getD_eq_getElem?_getD, List.getElem?_eq_getElem hi]
     exact h _ (List.getElem_mem hi)
   · rw [List.getD_eq_getElem?_getD, List.getElem?_eq_none (by omega)]
-    simp only [Option.getD_none, absBits_zero]
-    rcases hf with rfl | rfl
-    · exact RepOK_zero32
-    · exact RepOK_zero64
+    rcases hf with rfl | rfl <;> decide
+
+/-! ## the staging buffers of one call -/
+
+theorem chunksOf_flatten_take {α : Type} (n : Nat) (l : List α) (k : Nat) :
+    ((List.range k).map fun i => (l.drop (i * n)).take n).flatten = l.take (k * n) := by
+  induction k with
+  | zero => simp
+  | succ k ih =>
+    rw [List.range_succ, List.map_append, List.flatten_append, ih]
+    simp only [List.map_cons, List.map_nil, List.flatten_cons, List.flatten_nil, List.append_nil]
+    rw [Nat.succ_mul, List.take_add]
+
+theorem chunksOf_flatten {α : Type} (n : Nat) (l : List α) : (chunksOf n l).flatten = l := by
+  unfold chunksOf
+  by_cases hn : n = 0
+  · simp [hn]
+  · have : (n == 0) = false := by simpa using hn
+    simp only [this, Bool.false_eq_true, if_false]
+    rw [chunksOf_flatten_take]
+    apply List.take_of_length_le
+    have h1 := Nat.div_add_mod (l.length + n - 1) n
+    have h2 := Nat.mod_lt (l.length + n - 1) (Nat.pos_of_ne_zero hn)
+    have h3 : n * ((l.length + n - 1) / n) = (l.length + n - 1) / n * n := Nat.mul_comm _ _
+    omega
+
+/-- with a buffer of whole frames every chunk of a call of whole frames is a positive number of whole frames -/
+theorem chunksOf_frames {α : Type} (n ch : Nat) (l : List α) (hl : 0 < l.length) (hlm : l.length % ch = 0) (hnm : n % ch = 0) :
+    ∀ c ∈ chunksOf n l, 0 < c.length ∧ c.length % ch = 0 := by
+  unfold chunksOf
+  by_cases hn : n = 0
+  · simp [hn]; exact ⟨List.ne_nil_of_length_pos hl |> List.length_pos_iff.mpr, hlm⟩
+  · have : (n == 0) = false := by simpa using hn
+    simp only [this, Bool.false_eq_true, if_false]
+    intro c hc
+    simp only [List.mem_map, List.mem_range] at hc
+    obtain ⟨i, hi, rfl⟩ := hc
+    have hlt : i * n < l.length := by
+      have h1 := Nat.div_add_mod (l.length + n - 1) n
+      have h2 := Nat.mod_lt (l.length + n - 1) (Nat.pos_of_ne_zero hn)
+      have h3 : (i + 1) * n ≤ (l.length + n - 1) / n * n := Nat.mul_le_mul_right _ hi
+      have h4 : n * ((l.length + n - 1) / n) = (l.length + n - 1) / n * n := Nat.mul_comm _ _
+      have h5 : (i + 1) * n = i * n + n := Nat.succ_mul _ _
+      omega
+    rw [List.length_take, List.length_drop]
+    have hpos : 0 < n := Nat.pos_of_ne_zero hn
+    refine ⟨by omega, ?_⟩
+    have hd1 : ch ∣ n := Nat.dvd_of_mod_eq_zero hnm
+    have hd2 : ch ∣ l.length - i * n :=
+      Nat.dvd_sub (Nat.dvd_of_mod_eq_zero hlm) (Dvd.dvd.mul_left hd1 i)
+    rcases Nat.le_total n (l.length - i * n) with h | h
+    · rw [Nat.min_eq_left h]; exact Nat.mod_eq_zero_of_dvd hd1
+    · rw [Nat.min_eq_right h]; exact Nat.mod_eq_zero_of_dvd hd2
+
+/-- the fold of `peakUpdate` over the buffers of one call: `done` items of the call are already accounted for -/
+theorem chunks_inv (f : Fmt) (hf : f = Float.f32 ∨ f = Float.f64) (ch : Nat) (hch : 0 < ch) (N : Nat) :
+    ∀ (cs : List (List Nat)) (pre post : List Nat) (done : Nat) (ps : List Peak),
+      (∀ c ∈ cs, 0 < c.length ∧ c.length % ch = 0) → (∀ c ∈ cs, ∀ x ∈ c, f.isFinite x = true) →
+      done % ch = 0 → pre.length = N * ch + done →
+      AllInv f ch (pre ++ cs.flatten ++ post) (N + done / ch) ps →
+      AllInv f ch (pre ++ cs.flatten ++ post) (N + (done + cs.flatten.length) / ch)
+        (cs.foldl (fun (acc : List Peak × Nat) c =>
+          (peakChunkUpdate f ch (N : Int) ((acc.2 / ch : Nat) : Int) c acc.1, acc.2 + c.length)) (ps, done)).1 := by
+  intro cs
+  induction cs with
+  | nil => intro pre post done ps _ _ _ _ inv; simpa using inv
+  | cons c cs ih =>
+    intro pre post done ps hfr hfin hdone hpre inv
+    obtain ⟨hcpos, hcm⟩ := hfr c List.mem_cons_self
+    have hcl : c.length = (c.length / ch) * ch := (Nat.div_mul_cancel (Nat.dvd_of_mod_eq_zero hcm)).symm
+    have hn : 0 < c.length / ch := Nat.div_pos (Nat.le_of_dvd hcpos (Nat.dvd_of_mod_eq_zero hcm)) hch
+    have hpre' : pre.length = (N + done / ch) * ch := by
+      rw [hpre, Nat.add_mul, Nat.div_mul_cancel (Nat.dvd_of_mod_eq_zero hdone)]
+    have hassoc : pre ++ (c :: cs).flatten ++ post = pre ++ c ++ (cs.flatten ++ post) := by
+      simp [List.append_assoc]
+    rw [hassoc] at inv ⊢
+    have hci := chunk_inv f ch pre c (cs.flatten ++ post) (N + done / ch) (c.length / ch) hpre' hcl hn
+      (fun c' _ j => widenOK_col f hf ch c' c (hfin c List.mem_cons_self) j)
+      (N : Int) ((done / ch : Nat) : Int) (by push_cast; rfl) ps inv
+    have hassoc2 : pre ++ c ++ (cs.flatten ++ post) = (pre ++ c) ++ cs.flatten ++ post := by simp [List.append_assoc]
+    rw [hassoc2] at hci ⊢
+    have hdone' : (done + c.length) % ch = 0 := by
+      rw [Nat.add_mod, hdone, hcm]; simp
+    have hdiv : N + done / ch + c.length / ch = N + (done + c.length) / ch := by
+      rw [Nat.add_assoc]; congr 1
+      obtain ⟨a, ha⟩ := Nat.dvd_of_mod_eq_zero hdone
+      obtain ⟨b, hb⟩ := Nat.dvd_of_mod_eq_zero hcm
+      rw [ha, hb, ← Nat.mul_add, Nat.mul_div_cancel_left _ hch, Nat.mul_div_cancel_left _ hch, Nat.mul_div_cancel_left _ hch]
+    rw [hdiv] at hci
+    have := ih (pre ++ c) post (done + c.length) _ (fun c' hc' => hfr c' (List.mem_cons_of_mem _ hc'))
+      (fun c' hc' => hfin c' (List.mem_cons_of_mem _ hc')) hdone' (by rw [List.length_append, hpre]; omega) hci
+    simp only [List.foldl_cons, List.flatten_cons, List.length_append]
+    rw [← Nat.add_assoc]
+    exact this
+
+/-! ## one call -/
+
+def fileFmt : Enc → Fmt | .dbl _ => Float.f64 | _ => Float.f32
+def fileTy : Enc → Ty | .dbl _ => .f64 | _ => .f32
+
+/-- the caller's value as the file-typed bit pattern the PEAK bookkeeping looks at (`conv` inside `Sf.peakUpdate`) -/
+def convVal (enc : Enc) (conv : Conv) (ty : Ty) (v : Int) : Nat :=
+  match enc with
+  | .flt _ => (match ty with | .s16 | .s32 => floatOfInt Float.f32 conv.scaleIF ty v | .f32 => v.toNat | .f64 => Float.f64to32 v.toNat)
+  | _ => (match ty with | .s16 | .s32 => floatOfInt Float.f64 conv.scaleIF ty v | .f32 => Float.f32to64 v.toNat | .f64 => v.toNat)
+
+theorem fileFmt_std (enc : Enc) : fileFmt enc = Float.f32 ∨ fileFmt enc = Float.f64 := by
+  cases enc <;> simp [fileFmt]
+
+/-- buffer length used for a call: the whole call when the caller's type is the file's, else whole frames of the staging buffer -/
+def callChunk (enc : Enc) (ch : Nat) (ty : Ty) : Nat := if ty = fileTy enc then 0 else stagingLen (fileFmt enc) ch
+
+theorem stagingLen_mod (f : Fmt) (ch : Nat) : stagingLen f ch % ch = 0 := by
+  unfold stagingLen
+  generalize 8192 / (f.width / 8) = a
+  have h := Nat.div_add_mod a ch
+  have : a - a % ch = ch * (a / ch) := by omega
+  rw [this]; exact Nat.mul_mod_right _ _
+
+theorem callChunk_mod (enc : Enc) (ch : Nat) (ty : Ty) : callChunk enc ch ty % ch = 0 := by
+  unfold callChunk; split
+  · exact Nat.zero_mod _
+  · exact stagingLen_mod _ _
+
+theorem upd_eq (enc : Enc) (hfl : enc.isFloatData = true) (conv : Conv) (ch : Nat) (wpos : Int) (ty : Ty) (vals : List Int)
+    (ps : List Peak) :
+    upd (some ps) enc conv ch wpos ty vals =
+      some ((chunksOf (callChunk enc ch ty) (vals.map (convVal enc conv ty))).foldl (fun (acc : List Peak × Nat) c =>
+        (peakChunkUpdate (fileFmt enc) ch wpos ((acc.2 / ch : Nat) : Int) c acc.1, acc.2 + c.length)) (ps, 0)).1 := by
+  cases enc with
+  | pcm p => simp [Enc.isFloatData] at hfl
+  | ulaw => simp [Enc.isFloatData] at hfl
+  | alaw => simp [Enc.isFloatData] at hfl
+  | flt b =>
+    have hc : (if (ty == Ty.f32) = true then 0 else stagingLen Float.f32 ch) = callChunk (.flt b) ch ty := by
+      unfold callChunk fileTy fileFmt; by_cases h : ty = .f32 <;> simp [h]
+    simp only [upd, peakUpdate, fileFmt]
+    change some ((chunksOf (if (ty == Ty.f32) = true then 0 else stagingLen Float.f32 ch) (vals.map (convVal (.flt b) conv ty))).foldl _ (ps, 0)).1 = _
+    rw [hc]
+  | dbl b =>
+    have hc : (if (ty == Ty.f64) = true then 0 else stagingLen Float.f64 ch) = callChunk (.dbl b) ch ty := by
+      unfold callChunk fileTy fileFmt; by_cases h : ty = .f64 <;> simp [h]
+    simp only [upd, peakUpdate, fileFmt]
+    change some ((chunksOf (if (ty == Ty.f64) = true then 0 else stagingLen Float.f64 ch) (vals.map (convVal (.dbl b) conv ty))).foldl _ (ps, 0)).1 = _
+    rw [hc]
 
 /-! ## a sequence of calls -/
 
@@ -335,18 +441,14 @@ theorem RepOK_col (f : Fmt) (hf : f = Float.f32 ∨ f = Float.f64) (ch c : Nat) 
 def fileVals (enc : Enc) (conv : Conv) (calls : List (Ty × List Int)) : List Nat :=
   calls.flatMap fun c => c.2.map (convVal enc conv c.1)
 
-/-- a write call outside the two defect classes: whole frames, handed over in one piece, every magnitude exactly
-    representable in binary32 and finite -/
-def GoodCall (enc : Enc) (conv : Conv) (ch : Nat) (call : Ty × List Int) : Prop :=
-  0 < call.2.length ∧ call.2.length % ch = 0 ∧ SingleChunk enc call.1 call.2.length ∧
-  ∀ x ∈ call.2, RepOK (fileFmt enc) (absBits (fileFmt enc) (convVal enc conv call.1 x))
-
-theorem fileFmt_std (enc : Enc) : fileFmt enc = Float.f32 ∨ fileFmt enc = Float.f64 := by
-  cases enc <;> simp [fileFmt]
+/-- a well-formed call: a positive whole number of frames of samples that are finite in the file's type -/
+def WellFormed (enc : Enc) (conv : Conv) (ch : Nat) (call : Ty × List Int) : Prop :=
+  0 < call.2.length ∧ call.2.length % ch = 0 ∧
+  ∀ x ∈ call.2, (fileFmt enc).isFinite (convVal enc conv call.1 x) = true
 
 theorem run_inv (enc : Enc) (hfl : enc.isFloatData = true) (conv : Conv) (ch : Nat) (hch : 0 < ch) :
     ∀ (calls : List (Ty × List Int)) (pre : List Nat) (N : Nat) (post : List Nat) (ps : List Peak),
-      (∀ call ∈ calls, GoodCall enc conv ch call) → pre.length = N * ch →
+      (∀ call ∈ calls, WellFormed enc conv ch call) → pre.length = N * ch →
       AllInv (fileFmt enc) ch (pre ++ fileVals enc conv calls ++ post) N ps →
       ∃ ps', run enc conv ch (some ps) (N : Int) calls = some ps' ∧
         AllInv (fileFmt enc) ch (pre ++ fileVals enc conv calls ++ post) (N + (fileVals enc conv calls).length / ch) ps' := by
@@ -358,50 +460,74 @@ theorem run_inv (enc : Enc) (hfl : enc.isFloatData = true) (conv : Conv) (ch : N
   | cons call cs ih =>
     intro pre N post ps hgood hpre inv
     obtain ⟨ty, data⟩ := call
-    obtain ⟨hpos, hmod, hsc, hrep⟩ := hgood (ty, data) (List.mem_cons_self)
-    simp only at hpos hmod hsc hrep
+    obtain ⟨hpos, hmod, hfin⟩ := hgood (ty, data) (List.mem_cons_self)
+    simp only at hpos hmod hfin
     let vals := data.map (convVal enc conv ty)
-    have hvl : vals.length = (data.length / ch) * ch := by
-      simp only [vals, List.length_map]; exact (Nat.div_mul_cancel (Nat.dvd_of_mod_eq_zero hmod)).symm
-    have hn : 0 < data.length / ch := Nat.div_pos (Nat.le_of_dvd hpos (Nat.dvd_of_mod_eq_zero hmod)) hch
+    have hvlen : vals.length = data.length := by simp [vals]
     have hfv : fileVals enc conv ((ty, data) :: cs) = vals ++ fileVals enc conv cs := by simp [fileVals, vals]
-    have hassoc : pre ++ fileVals enc conv ((ty, data) :: cs) ++ post = pre ++ vals ++ (fileVals enc conv cs ++ post) := by
-      rw [hfv]; simp [List.append_assoc]
-    have hrepc : ∀ c < ch, ∀ j, RepOK (fileFmt enc) (colB (fileFmt enc) ch c vals j) := by
-      intro c _ j
-      apply RepOK_col _ (fileFmt_std enc)
-      intro x hx
-      simp only [vals, List.mem_map] at hx
-      obtain ⟨y, hy, rfl⟩ := hx
-      exact hrep y hy
+    have hfl' := chunksOf_flatten (callChunk enc ch ty) vals
+    have hassoc : pre ++ fileVals enc conv ((ty, data) :: cs) ++ post =
+        pre ++ (chunksOf (callChunk enc ch ty) vals).flatten ++ (fileVals enc conv cs ++ post) := by
+      rw [hfv, hfl']; simp [List.append_assoc]
     rw [hassoc] at inv
-    have hci := chunk_inv (fileFmt enc) ch pre vals (fileVals enc conv cs ++ post) N (data.length / ch) hpre hvl hn hrepc
-      (N : Int) ((0 / ch : Nat) : Int) (by simp) ps inv
-    have hpre' : (pre ++ vals).length = (N + data.length / ch) * ch := by
-      rw [List.length_append, hpre, hvl]; ring
+    have hframes := chunksOf_frames (callChunk enc ch ty) ch vals (by rw [hvlen]; exact hpos) (by rw [hvlen]; exact hmod)
+      (callChunk_mod enc ch ty)
+    have hfinc : ∀ c ∈ chunksOf (callChunk enc ch ty) vals, ∀ x ∈ c, (fileFmt enc).isFinite x = true := by
+      intro c hc x hx
+      have hxm : x ∈ (chunksOf (callChunk enc ch ty) vals).flatten := List.mem_flatten.mpr ⟨c, hc, hx⟩
+      rw [hfl'] at hxm
+      simp only [vals, List.mem_map] at hxm
+      obtain ⟨y, hy, rfl⟩ := hxm
+      exact hfin y hy
+    have hci := chunks_inv (fileFmt enc) (fileFmt_std enc) ch hch N (chunksOf (callChunk enc ch ty) vals) pre
+      (fileVals enc conv cs ++ post) 0 ps hframes hfinc (Nat.zero_mod _) (by simpa using hpre) (by simpa using inv)
+    rw [hfl'] at hci
+    simp only [Nat.zero_add] at hci
+    have hpre' : (pre ++ vals).length = (N + vals.length / ch) * ch := by
+      rw [List.length_append, hpre, Nat.add_mul, Nat.div_mul_cancel (Nat.dvd_of_mod_eq_zero (by rw [hvlen]; exact hmod))]
     have hassoc2 : pre ++ vals ++ (fileVals enc conv cs ++ post) = (pre ++ vals) ++ fileVals enc conv cs ++ post := by
       simp [List.append_assoc]
     rw [hassoc2] at hci
-    obtain ⟨ps', hrun, hinv'⟩ := ih (pre ++ vals) (N + data.length / ch) post _
+    obtain ⟨ps', hrun, hinv'⟩ := ih (pre ++ vals) (N + vals.length / ch) post _
       (fun c hc => hgood c (List.mem_cons_of_mem _ hc)) hpre' hci
     refine ⟨ps', ?_, ?_⟩
     · simp only [run]
-      rw [upd_single enc hfl conv ch (N : Int) ty data ps hpos hsc]
-      have : (N : Int) + (data.length : Int) / (ch : Int) = ((N + data.length / ch : Nat) : Int) := by push_cast; rfl
+      rw [upd_eq enc hfl conv ch (N : Int) ty data ps]
+      have : (N : Int) + (data.length : Int) / (ch : Int) = ((N + vals.length / ch : Nat) : Int) := by
+        rw [hvlen]; push_cast; rfl
       rw [this]; exact hrun
-    · rw [hassoc, hassoc2]
+    · have h1 : pre ++ fileVals enc conv ((ty, data) :: cs) ++ post = (pre ++ vals) ++ fileVals enc conv cs ++ post := by
+        rw [hfv]; simp [List.append_assoc]
+      rw [h1]
       have hcount : N + (fileVals enc conv ((ty, data) :: cs)).length / ch =
-          N + data.length / ch + (fileVals enc conv cs).length / ch := by
-        rw [hfv, List.length_append, hvl, Nat.add_comm (data.length / ch * ch), Nat.add_mul_div_right _ _ hch]; omega
+          N + vals.length / ch + (fileVals enc conv cs).length / ch := by
+        rw [hfv, List.length_append]
+        obtain ⟨a, ha⟩ := Nat.dvd_of_mod_eq_zero (show vals.length % ch = 0 by rw [hvlen]; exact hmod)
+        rw [ha, Nat.mul_div_cancel_left _ hch, Nat.mul_comm ch a, Nat.add_comm (a * ch), Nat.add_mul_div_right _ _ hch]; omega
       rw [hcount]; exact hinv'
 
 theorem allInv_init (f : Fmt) (ch : Nat) (all : List Nat) : AllInv f ch all 0 (mkPeaks ch) := by
   refine ⟨by simp [mkPeaks], ?_⟩
   intro c hc
   have : (mkPeaks ch).getD c {} = ({} : Peak) := by
-    simp [mkPeaks, List.getD, List.getElem?_replicate, hc]
+    simp [mkPeaks, List.getD, hc]
   rw [this]
-  show PInv _ 0 (V64 0) 0
-  rw [V64_zero]; exact PInv.init _
+  show PInv _ _ 0 (V64 0) 0 0
+  rw [V64_zero]; exact PInv.init _ _
+
+/-- two PEAK states satisfying the invariant for the same samples are the same list -/
+theorem allInv_unique (f : Fmt) (ch : Nat) (all : List Nat) (N : Nat) (ps1 ps2 : List Peak)
+    (h1 : AllInv f ch all N ps1) (h2 : AllInv f ch all N ps2) : ps1 = ps2 := by
+  apply List.ext_getElem (by rw [h1.1, h2.1])
+  intro c hc1 hc2
+  have hc : c < ch := by rw [← h1.1]; exact hc1
+  obtain ⟨hb, hp⟩ := PInv.unique _ _ _ _ _ _ _ _ _ (h1.2 c hc) (h2.2 c hc)
+  have e1 : ps1.getD c {} = ps1[c] := by simp [List.getD, hc1]
+  have e2 : ps2.getD c {} = ps2[c] := by simp [List.getD, hc2]
+  rw [e1, e2] at hb hp
+  cases h : ps1[c]; cases h' : ps2[c]
+  rw [h, h'] at hb hp
+  simp only at hb hp
+  rw [hb, hp]
 
 end Sf.Peak
